@@ -173,6 +173,9 @@ fn corpus() -> Vec<&'static str> {
         // D21 without an explicit disjunction: two answer orders over 12 fresh processes (6/6); the labelling of v0 and v1 is
         // the choice point (found by the thorough tier of C16 as a model/implementation sequence difference)
         "prog 4 2 0 - infd v3 V 5 1 -4 4 -1 -1 infd v2 I -4 4 infd v0 I -3 1 distinctfd cons v2 cons v0 cons v1 cons i2 nil infd v1 I -1 4 plusfd v0 v1 v2 distinctfd cons v3 cons i-1 nil",
+        // labelling through a compound query term, domains only: the order is the field order (C09-e)
+        "prog 3 1 0 - eq v0 comp0 cons v1 cons v2 nil infd v1 I 0 1 infd v2 I 0 1",
+        "prog 4 1 0 - eq v0 comp1 cons v1 cons v2 cons v3 nil infd v1 I 0 2 infd v2 I 5 6 infd v3 I -1 0",
         // a simplified disequality subsumes a stored one in the middle of a pass; a third one is violated (C09-b)
         "prog 6 6 0 - neq cons v0 cons v1 nil cons i7 cons i2 nil neq cons v1 cons v2 nil cons i2 cons i3 nil neq v3 v4 eq cons v3 cons v0 nil cons v4 cons i7 nil",
     ]
@@ -218,8 +221,35 @@ pub fn run(seed: u64, thorough: bool, out: &mut Out) {
                 record(&Prog { nvars: g.nq + g.nh, nq: g.nq, take, body, raw: false }, take == 0, out);
             }
             _ => {
-                out.stat("fd");
-                record(&c16::gen_prog(&mut r), true, out);
+                if r.chance(1, 4) {
+                    // labelling alone (domains, at most one propagator) through a structured query term: the answer order is
+                    // a function of the program here (seeded change C09-e: compound fields collected into a HashSet)
+                    out.stat("fd_labelling_structured");
+                    let nv = 2 + r.below(3);
+                    let vs: Vec<T> = (1..=nv).map(T::Var).collect();
+                    let s = match r.below(4) {
+                        // the pair type has two fields, P3 three
+                        0 => T::Comp(0, vec![vs[0].clone(), if nv == 2 { vs[1].clone() } else { T::list(vs[1..].to_vec()) }]),
+                        1 => T::Comp(0, vec![T::list(vs[1..].to_vec()), vs[0].clone()]),
+                        2 if nv >= 3 => T::Comp(1, vec![vs[0].clone(), vs[1].clone(), if nv == 3 { vs[2].clone() } else { T::list(vs[2..].to_vec()) }]),
+                        2 => T::list(vec![T::Comp(0, vs[..2].to_vec())]),
+                        _ => T::list(vec![T::Comp(0, vs[..2].to_vec()), T::list(vs[2..].to_vec())]),
+                    };
+                    let mut body = vec![PG::Eq(T::Var(0), s)];
+                    let g = crate::fdgen::FdGen { nv, lo: -2, hi: 3, signs: true };
+                    for v in &vs {
+                        body.push(PG::InFd(v.clone(), g.domain(&mut r)));
+                    }
+                    if r.chance(1, 2) {
+                        let a = vs[r.below(nv)].clone();
+                        let b = vs[r.below(nv)].clone();
+                        body.push(if r.chance(1, 2) { PG::LteFd(a, b) } else { PG::DiseqFd(a, b) });
+                    }
+                    record(&Prog { nvars: nv + 1, nq: 1, take: 0, body, raw: false }, true, out);
+                } else {
+                    out.stat("fd");
+                    record(&c16::gen_prog(&mut r), true, out);
+                }
             }
         }
     }
